@@ -32,13 +32,14 @@ void *jet_memmem(const void *h, size_t hl, const void *n, size_t nl)
 	}
 	return 0;
 }
-static int read_forbidden, reads;
+static int read_forbidden, reads, last_read_mode = -1;
 cjet_ssize_t socket_read(socket_type sock, void *buf, size_t count)
 {
 	(void)sock; (void)buf;
 	CHECK(!read_forbidden, "C05.no_read_after_release");
 	reads++;
 	int mode = (int)nd_range(0, 3);
+	last_read_mode = mode;
 	if (mode == 0) { sock_errno = EAGAIN; return -1; }
 	if (mode == 1) { sock_errno = ECONNRESET; return -1; }
 	if (mode == 2) return 0;
@@ -124,7 +125,9 @@ void harness_read_after_close(void)
 		if (cb_closed && err_cb_calls == 0) CHECK(r == EL_EVENT_REMOVED, "C05.loop_told_event_is_gone");
 		ret = 0;
 	}
-	(void)ret;
+	/* the connection is left registered and waiting only when the kernel said "would block": every other way out of the read loop
+	   (too much data without delimiter, reset) is reported to the error callback, or a callback closed the connection */
+	if (ret == 0 && !cb_closed && err_cb_calls == 0 && reads > 0) CHECK(last_read_mode == 0, "C13.reader_failure_is_reported_not_ignored");
 	CHECK(err_cb_calls <= 1, "C05.error_reported_at_most_once");
 	if (cb_closed) REACH("closed_in_callback");
 #ifndef NOHEAP
